@@ -1,6 +1,11 @@
 import Gql.Proofs.SchemaValidate
 import Gql.Proofs.SchemaIff
 import Gql.Proofs.SchemaCycles
+import Gql.Proofs.SchemaDefaults
+import Gql.Proofs.SchemaInterfaces
+import Gql.Proofs.SchemaAssemble
+import Gql.Proofs.SchemaDfs
+import Gql.Proofs.SchemaDcThread
 /-!
 # C20 — Schema validation reports every type-system violation and never crashes
 
@@ -12,11 +17,11 @@ Model: `Gql.Types.validateSchema` (type/validate.py with type_comparators.py,
 `repo_patches/F6_default_value_non_input_type.diff`; `Gql.Types.Pinned.validateSchema` is the
 pinned code.  Spec: `Gql.Types.Spec.TypeSystemValid` (Gql/Spec/TypeSystem.lean).
 
-Status: no-crash, the response theorem and the cache are full; of the rule families, roots,
-names, unions and enums are full; fields, directives and input fields are proved relative to
-the default-value family (`_partial`); interfaces, default values and the two cycle families
-are `_partial` (pieces proved, full statement kept as a `def … : Prop`); termination is proved
-for the non-null validator and stated for the default-value validator.
+Status: everything is proved.  `validate_iff_spec` holds for every raw schema with well-formed
+names (`NamesWF`: no `.` in a type name, input field names of a type pairwise different — what
+`assert_name` and Python dicts guarantee for any constructed schema; a `decide`d example shows the
+hypothesis is needed); the per-family statements about defaults / interfaces carry the side
+conditions `WellTypedInputs` / `UnionsOk`, which the whole statement derives from either side.
 -/
 namespace Gql.Props.C20
 open Gql Gql.Types
@@ -60,16 +65,10 @@ example : validateSchema witnessF6 = .ok [⟨.notInputType, [81, 46, 103, 40, 12
 
 /-! ## errors = [] ⇔ the specification's rules, family by family -/
 
-/-- C20-2 (whole). The statement for all families at once. -/
-def validate_iff_spec_full : Prop :=
-  ∀ s : RawSchema, validateSchema s = .ok [] ↔ Spec.TypeSystemValid s = true
-
-/-- Every input object field has an input type (implied by either side of
-`validate_iff_spec_full`; the per-family statements that involve default values need it, because
-the repaired validator *skips* a provided field of non-input type while the specification's
-coercion simply fails there). -/
-def WellTypedInputs (s : RawSchema) : Prop :=
-  ∀ t ∈ s.types, ∀ fs o, t.defn = .input fs o → ∀ f ∈ fs, s.isInputType f.type = true
+/- `WellTypedInputs s` (Gql/Proofs/SchemaDefaults.lean): every input object field has an input
+type.  It is implied by either side of `validate_iff_spec`; the per-family statements that
+involve default values need it, because the repaired validator *skips* a provided field of
+non-input type while the specification's coercion simply fails there. -/
 
 /-- C20-2 roots (full): no root error ⇔ query root present, every provided root an Object type,
 all different. -/
@@ -101,90 +100,73 @@ theorem validate_iff_spec_enums (en : Str) (vs : List Str) :
 
 example : validateEnum [69] [] = [⟨.enumEmpty, [69]⟩] := by decide
 
-/-- C20-2 default values — full statement: at an input type, `validate_default_value` reports
-nothing exactly when the default coerces to the declared type. -/
-def validate_iff_spec_defaults_full : Prop :=
-  ∀ s : RawSchema, WellTypedInputs s → DefaultsAgree s validateDefault
+/-- C20-2 default values (full). In a schema whose input object fields all have input types:
+at an input type, `validate_default_value` reports nothing exactly when the default (if any)
+coerces to the declared type by the specification's input coercion rules — through Non-Null,
+lists (incl. the list-of-one promotion), input objects (unknown / missing / repeated keys, OneOf),
+enums and the built-in and custom scalars. -/
+theorem validate_iff_spec_defaults (s : RawSchema) (hw : WellTypedInputs s) (a : InputValue)
+    (c : Str) (hi : s.isInputType a.type = true) :
+    validateDefault s a c = .ok [] ↔ Spec.defaultOk s a = true :=
+  defaultsAgree s hw a c hi
 
-/-- C20-2 default values (partial): proved are the leaf level (the built-in scalars accept
-exactly the literals the specification's coercion accepts, custom scalars everything), the
-absent-default case, and that a default at a non-input type is not validated at all. Missing:
-the induction through list and input-object literals (`vLit = ok [] ↔ Spec.coercible`). -/
-theorem validate_iff_spec_defaults_partial (s : RawSchema) (a : InputValue) (c : Str) :
-    (∀ k v, scalarAccepts k (Lit.shape v) = Spec.scalarCoerces k v) ∧
-    (a.default = none → validateDefault s a c = .ok [] ∧ Spec.defaultOk s a = true) ∧
-    (s.isInputType a.type = false → validateDefault s a c = .ok []) := by
-  refine ⟨scalarAccepts_eq, ?_, ?_⟩
-  · intro h; simp [validateDefault, Spec.defaultOk, h]
-  · intro h; unfold validateDefault; cases a.default <;> simp [h]
+/-- the literal level of the same family -/
+theorem validate_iff_spec_defaults_literal (s : RawSchema) (hw : WellTypedInputs s) (v : Lit)
+    (t : TRef) (hi : s.isInputType t = true) :
+    vLit s true v t = .ok [] ↔ Spec.coercible s v t = true :=
+  vLit_nil s hw v t hi
+
+/-- Without `WellTypedInputs` the statement is false: `input I { f: Query }` with the default
+`{f: 1}` at type `I` is skipped by the (repaired) validator and rejected by the specification's
+coercion — the schema is invalid either way, through the input-fields family. -/
+example : vLit witnessF6Nested true (.obj [([102], .int 1)]) (.named [73]) = .ok [] ∧
+    Spec.coercible witnessF6Nested (.obj [([102], .int 1)]) (.named [73]) = false := by decide
 
 example : scalarAccepts .int (Lit.shape (.int 2147483648)) = false ∧
     Spec.scalarCoerces .int (.int (-2147483648)) = true := by decide
 
-/-- C20-2 fields — full statement. -/
-def validate_iff_spec_fields_full : Prop :=
-  ∀ s : RawSchema, WellTypedInputs s → ∀ tn fs,
-    validateFields s validateDefault tn fs = .ok [] ↔ Spec.fieldsOk s fs = true
+/-- C20-2 fields (full): non-empty, no reserved field or argument name, output type in field
+position, input type in argument position, no deprecated required argument, defaults coerce. -/
+theorem validate_iff_spec_fields (s : RawSchema) (hw : WellTypedInputs s) (tn : Str)
+    (fs : List Field) :
+    validateFields s validateDefault tn fs = .ok [] ↔ Spec.fieldsOk s fs = true :=
+  validateFields_nil s validateDefault (defaultsAgree s hw) tn fs
 
-/-- C20-2 fields (partial: relative to the default-value family). Non-empty, no reserved field
-or argument name, output type in field position, input type in argument position, no
-deprecated required argument — for any model of `validate_default_value` that satisfies the
-default-value family (`DefaultsAgree`). -/
-theorem validate_iff_spec_fields_partial (s : RawSchema)
-    (dflt : RawSchema → InputValue → Str → Out Unit (List Err)) (H : DefaultsAgree s dflt)
-    (tn : Str) (fs : List Field) :
-    validateFields s dflt tn fs = .ok [] ↔ Spec.fieldsOk s fs = true :=
-  validateFields_nil s dflt H tn fs
+/-- C20-2 directives (full): names, at least one location, argument rules, defaults coerce. -/
+theorem validate_iff_spec_directives (s : RawSchema) (hw : WellTypedInputs s) :
+    validateDirectives s validateDefault = .ok [] ↔ s.directives.all (Spec.directiveOk s) = true :=
+  validateDirectives_nil s validateDefault (defaultsAgree s hw)
 
-/-- C20-2 directives — full statement. -/
-def validate_iff_spec_directives_full : Prop :=
-  ∀ s : RawSchema, WellTypedInputs s →
-    (validateDirectives s validateDefault = .ok [] ↔ s.directives.all (Spec.directiveOk s) = true)
-
-/-- C20-2 directives (partial: relative to the default-value family). -/
-theorem validate_iff_spec_directives_partial (s : RawSchema)
-    (dflt : RawSchema → InputValue → Str → Out Unit (List Err)) (H : DefaultsAgree s dflt) :
-    validateDirectives s dflt = .ok [] ↔ s.directives.all (Spec.directiveOk s) = true :=
-  validateDirectives_nil s dflt H
-
-/-- C20-2 input objects — full statement (fields part; cycles are separate families). -/
-def validate_iff_spec_inputs_full : Prop :=
-  ∀ s : RawSchema, WellTypedInputs s → ∀ tn fs o,
+/-- C20-2 input objects (full; cycles are separate families): non-empty, names, input types, no
+deprecated required field, defaults coerce, OneOf fields nullable and without default. -/
+theorem validate_iff_spec_inputs (s : RawSchema) (hw : WellTypedInputs s) (tn : Str)
+    (fs : List InputValue) (o : Bool) :
     validateInputFields s validateDefault tn fs o = .ok [] ↔
-      (!fs.isEmpty && fs.all (Spec.inputFieldOk s o)) = true
-
-/-- C20-2 input objects (partial: relative to the default-value family): non-empty, names,
-input types, no deprecated required field, OneOf fields nullable and without default. -/
-theorem validate_iff_spec_inputs_partial (s : RawSchema)
-    (dflt : RawSchema → InputValue → Str → Out Unit (List Err)) (H : DefaultsAgree s dflt)
-    (tn : Str) (fs : List InputValue) (o : Bool) :
-    validateInputFields s dflt tn fs o = .ok [] ↔
       (!fs.isEmpty && fs.all (Spec.inputFieldOk s o)) = true :=
-  validateInputFields_nil s dflt H tn fs o
+  validateInputFields_nil s validateDefault (defaultsAgree s hw) tn fs o
 
--- non-vacuity of the `DefaultsAgree` hypothesis: a model that never reports satisfies it on a
--- schema without defaults, and the family theorem then decides a concrete field list
+-- a concrete field list
 example : validateFields witnessF6 validateDefault [81]
     [⟨[95, 95, 103], .named [73], [], false⟩] = .ok [⟨.reservedName, [95, 95, 103]⟩] := by decide
 
-/-- C20-2 interfaces — full statement (given that union members are Object types, which the
-unions family checks: `is_type_sub_type_of` lets an interface listed in a union pass). -/
-def validate_iff_spec_interfaces_full : Prop :=
-  ∀ s : RawSchema,
-    (∀ t ∈ s.types, ∀ ms, t.defn = .union ms → ms.all s.isObject = true) →
-    ∀ tn ifaces fields,
-      validateInterfaces s tn ifaces fields = [] ↔ Spec.implementsOk s tn ifaces fields = true
+/-- C20-2 interfaces (full), in a schema whose union members are all Object types (`UnionsOk`,
+what the unions family checks and either side of `validate_iff_spec` implies;
+`is_type_sub_type_of` lets an interface listed in a union pass as a sub-type of the union).
+No error ⇔ only interface types, each once, never itself, every transitive interface declared,
+and IsValidImplementation for each: every field present with a covariant type
+(`is_type_sub_type_of` = IsValidImplementationFieldType), every argument present with the same
+type, additional arguments not required, no deprecated implementation of a non-deprecated field. -/
+theorem validate_iff_spec_interfaces (s : RawSchema) (hu : UnionsOk s) (tn : Str)
+    (ifaces : List Str) (fields : List Field) :
+    validateInterfaces s tn ifaces fields = [] ↔ Spec.implementsOk s tn ifaces fields = true :=
+  validateInterfaces_nil s hu tn ifaces fields
 
-/-- C20-2 interfaces (partial): proved are the invariance of argument types
-(`is_equal_type` is equality) and the transitive-interfaces clause
-(`validate_type_implements_ancestors` ⇔ "whatever the interface implements, the type declares
-too"). Missing: the duplicate bookkeeping of the `implements` loop against `Nodup`, and
-`is_type_sub_type_of` against IsValidImplementationFieldType. -/
-theorem validate_iff_spec_interfaces_partial (s : RawSchema) (tn : Str) (tIfaces : List Str)
-    (i : Str) :
-    (∀ a b, isEqualType a b = true ↔ a = b) ∧
-    (validateAncestors s tn tIfaces i = [] ↔ (s.ifacesOf i).all tIfaces.contains = true) :=
-  ⟨isEqualType_iff, validateAncestors_nil s tn tIfaces i⟩
+/-- the comparators on their own: `is_equal_type` is equality, `is_type_sub_type_of` is the
+specification's covariance check -/
+theorem type_comparators_eq_spec (s : RawSchema) (hu : UnionsOk s) (a b : TRef) :
+    (isEqualType a b = true ↔ a = b) ∧
+    isTypeSubTypeOf s a b = Spec.validImplementationFieldType s a b :=
+  ⟨isEqualType_iff a b, isTypeSubTypeOf_eq s hu a b⟩
 
 /-- `interface A {a}  interface B implements A {a}  type Q implements B {a}`: the missing
 transitive interface is reported (A=[65], B=[66], Q=[81], a=[97], Int=[78]). -/
@@ -198,19 +180,27 @@ def witnessTransitive : RawSchema :=
 example : validateSchema witnessTransitive = .ok [⟨.missingTransitive, [81, 124, 65, 124, 66]⟩] ∧
     Spec.TypeSystemValid witnessTransitive = false := by decide
 
-/-- C20-2 unbreakable input cycles — full statement. -/
-def validate_iff_spec_inputCycles_full : Prop :=
-  ∀ s : RawSchema, ∀ errs, validateSchema s = .ok errs →
-    ((∀ e ∈ errs, e.kind ≠ .nonNullCycle) ↔
-      ∀ t ∈ s.types, ∀ fs o, t.defn = .input fs o → Spec.noUnbreakableCycle s t.name = true)
+/-- C20-2 unbreakable input cycles (full). `InputObjectNonNullCircularRefsValidator`, run over
+the type map in order with its visited set shared between the calls (`nnThread`), reports nothing
+exactly when no input object type of the schema can reach itself through fields whose type is
+Non-Null of an input object (not a list) — the specification's rule, whose bounded search is
+proved to decide reachability (`noUnbreakableCycle_reach`). -/
+theorem validate_iff_spec_inputCycles (s : RawSchema) :
+    nnThread s s.types [] = [] ↔
+      ∀ t ∈ s.types, ∀ fs o, t.defn = .input fs o → Spec.noUnbreakableCycle s t.name = true :=
+  nnThread_iff s
 
-/-- C20-2 unbreakable input cycles (partial): the validator and the specification's rule walk
-the same graph (a field counts iff its type is Non-Null of an input object, not a list).
-Missing: depth-first search with a shared visited set reports a cycle iff one is reachable. -/
-theorem validate_iff_spec_inputCycles_partial (s : RawSchema) (tn : Str)
-    (fields : List InputValue) (o : Bool) (h : s.lookup tn = some (.input fields o)) :
-    Spec.unbreakableRefs s tn = fields.filterMap (nonNullInputTarget s) :=
-  unbreakableRefs_eq s tn fields o h
+/-- the specification's rule is about genuine reachability: its search bounded by the number of
+types finds `tn` among what its unbreakable references reach iff a non-empty chain of unbreakable
+references leads from `tn` back to `tn` -/
+theorem noUnbreakableCycle_reach (s : RawSchema) (tn : Str) :
+    Spec.noUnbreakableCycle s tn = true ↔ ¬ ReachPlus s tn tn :=
+  noUnbreakableCycle_iff s tn
+
+/-- every error of that validator names an input object that really reaches itself -/
+theorem inputCycle_errors_sound (s : RawSchema) (e : Err) (h : e ∈ nnThread s s.types []) :
+    e.kind = .nonNullCycle ∧ ReachPlus s e.subj e.subj ∧ s.isInputObject e.subj = true :=
+  (nnThread_spec s s.types []).1 e h
 
 /-- `input A { b: B! }  input B { a: A! }` is reported once; `[B!]!` breaks the cycle. -/
 def witnessCycle (viaList : Bool) : RawSchema :=
@@ -225,36 +215,74 @@ example : validateSchema (witnessCycle false) = .ok [⟨.nonNullCycle, [65]⟩] 
     validateSchema (witnessCycle true) = .ok [] ∧ Spec.TypeSystemValid (witnessCycle true) = true := by
   decide
 
-/-- C20-2 default-value cycles — full statement. -/
-def validate_iff_spec_defaultCycles_full : Prop :=
-  ∀ s : RawSchema, ∀ errs, validateSchema s = .ok errs →
-    ((∀ e ∈ errs, e.kind ≠ .defaultCycle) ↔
-      ∀ t ∈ s.types, ∀ fs o, t.defn = .input fs o → Spec.defaultValueHasCycle s t.name = false)
+/-- C20-2 default-value cycles (full, for well-formed names).
+`InputObjectDefaultValueCircularRefsValidator`, run over the type map with its visited fields
+shared (`dcThread`), reports nothing exactly when the specification's
+InputObjectDefaultValueHasCycle is false for every input object type.  Both are shown to decide
+the same graph property (`defaultCycle_graph`): no field reached from the object — through the
+fields whose own default applies when a default literal is coerced — reaches itself. -/
+theorem validate_iff_spec_defaultCycles (s : RawSchema) (hwf : NamesWF s) :
+    dcThread s s.types [] = [] ↔
+      ∀ t ∈ s.types, ∀ fs o, t.defn = .input fs o → Spec.defaultValueHasCycle s t.name = false :=
+  dcThread_iff s hwf
 
-/-- C20-2 (whole, partial): `validate_schema` reports nothing iff the three phases report
-nothing, and for the first two phases that is the specification's root and directive rules
-(directives relative to the default-value family). Missing: the per-type phase, which needs the
-`_partial` families above and the threading of the two validators' visited sets. -/
-theorem validate_iff_spec_partial (s : RawSchema) (H : DefaultsAgree s validateDefault) :
-    validateSchema s = .ok [] ↔
-      Spec.rootsOk s = true ∧ s.directives.all (Spec.directiveOk s) = true ∧
-      ∃ st, validateTypesLoop s validateDefault s.types ⟨[], [], false⟩ = .ok ([], st) := by
-  rw [validateSchema_nil_iff, validateRootTypes_nil, validateDirectives_nil s validateDefault H]
+/-- the specification's algorithm (path-based, budgeted) is about genuine reachability -/
+theorem defaultCycle_graph (s : RawSchema) (hwf : NamesWF s) (tn : Str) :
+    Spec.defaultValueHasCycle s tn = true ↔ ∃ x ∈ needObject s tn [], ReachesCycle s x :=
+  defaultValueHasCycle_iff s hwf tn
+
+/-- C20-2 (whole, full). For every raw schema with well-formed names, `validate_schema` returns
+the empty list exactly when the schema satisfies the specification's type-system rules: root
+types, directives, reserved names, fields and arguments (input / output positions, deprecated
+required arguments), default values, interface implementation (transitive interfaces, covariant
+field types, invariant argument types, optional extra arguments, deprecation), unions, enums,
+input objects incl. OneOf, unbreakable input cycles and default-value cycles. -/
+theorem validate_iff_spec (s : RawSchema) (hwf : NamesWF s) :
+    validateSchema s = .ok [] ↔ Spec.TypeSystemValid s = true :=
+  validateSchema_iff_of_cycles s (nnThread_iff s) (dcThread_iff s hwf)
+
+/-- `NamesWF` is needed: with two fields of the same name in one input object
+(`input A { x: B = {}, x: A = {} }  input B { y: Int }`, impossible for a Python dict) the
+validator, which keys its visited set on the coordinate `A.x`, skips the second field, whose
+default `{}` at type `A` applies itself again. -/
+def witnessDuplicateField : RawSchema :=
+  ⟨some [81], none, none,
+   [⟨[65], .input [⟨[120], .named [66], some (.obj []), false, false⟩,
+                   ⟨[120], .named [65], some (.obj []), false, false⟩] false⟩,
+    ⟨[66], .input [⟨[121], .named [78], none, false, false⟩] false⟩,
+    ⟨[81], .object [] [⟨[97], .named [78], [], false⟩]⟩, ⟨[78], .scalar .int⟩], []⟩
+
+example : validateSchema witnessDuplicateField = .ok [] ∧
+    Spec.TypeSystemValid witnessDuplicateField = false := by decide
+
+-- default-value cycles on concrete schemas: `input A { b: B = {} }  input B { a: A = {} }`
+def witnessDefaultCycle (broken : Bool) : RawSchema :=
+  ⟨some [81], none, none,
+   [⟨[65], .input [⟨[98], .named [66], some (if broken then .obj [([97], .null)] else .obj []), false, false⟩] false⟩,
+    ⟨[66], .input [⟨[97], .named [65], some (.obj []), false, false⟩] false⟩,
+    ⟨[81], .object [] [⟨[97], .named [78], [], false⟩]⟩, ⟨[78], .scalar .int⟩], []⟩
+
+example : validateSchema (witnessDefaultCycle false) = .ok [⟨.defaultCycle, [65, 46, 98]⟩] ∧
+    Spec.TypeSystemValid (witnessDefaultCycle false) = false ∧
+    validateSchema (witnessDefaultCycle true) = .ok [] ∧
+    Spec.TypeSystemValid (witnessDefaultCycle true) = true := by decide
 
 /-! ## termination of the circular-reference validators -/
 
-/-- C20-3 — full statement: neither validator ever exhausts its recursion budget. -/
-def cycle_validators_terminate_full : Prop :=
-  ∀ s : RawSchema, validateSchemaOutOfFuel s = false
+/-- C20-3 (full). Neither circular-reference validator ever exhausts its recursion budget, on
+any raw schema: every nested call of `InputObjectNonNullCircularRefsValidator` marks a type of the
+schema visited for the first time (`nnFuel s = |types| + 1`), every nested call of
+`InputObjectDefaultValueCircularRefsValidator.detect_field_default_value_cycle` a field coordinate
+(`dcFuel s` = number of input fields + 1); the traversal of default literals in between is
+structural. -/
+theorem cycle_validators_terminate (s : RawSchema) : validateSchemaOutOfFuel s = false :=
+  validateSchemaOutOfFuel_false s
 
-/-- C20-3 (partial: the non-null validator). `InputObjectNonNullCircularRefsValidator` called on
-any type with any visited set terminates within `nnFuel s = |types| + 1` nested calls: each
-nested call marks a type of the schema visited for the first time. Missing: the same counting
-argument for `InputObjectDefaultValueCircularRefsValidator` (`dcFuel s` = number of input
-fields + 1), whose recursion also runs through the default literals. -/
-theorem cycle_validators_terminate_partial (s : RawSchema) (tn : Str) (st : VState)
-    (h : st.outOfFuel = false) : (runNN s tn st).2.outOfFuel = false :=
-  runNN_terminates s tn st h
+/-- C20-3, per validator and for any start type and any memory. -/
+theorem cycle_validators_terminate_each (s : RawSchema) (tn : Str) (st : VState)
+    (h : st.outOfFuel = false) :
+    (runNN s tn st).2.outOfFuel = false ∧ (runDC s tn st).2.outOfFuel = false :=
+  ⟨runNN_terminates s tn st h, runDC_terminates s tn st h⟩
 
 example : validateSchemaOutOfFuel (witnessCycle false) = false ∧
     validateSchemaOutOfFuel witnessF6Nested = false := by decide
